@@ -541,6 +541,9 @@ func (se *specEnv) binary(x *ast.BinaryExpr) tv {
 			}
 			return ar("", "bvudiv")
 		}
+		if r, ok := se.abstractDivMod("uf_div", "div", a.term, b.term); ok {
+			return tv{term: r, typ: t}
+		}
 		return tv{term: truncDiv(a.term, b.term), typ: t}
 	case token.REM:
 		if bv {
@@ -548,6 +551,9 @@ func (se *specEnv) binary(x *ast.BinaryExpr) tv {
 				return ar("", "bvsrem")
 			}
 			return ar("", "bvurem")
+		}
+		if r, ok := se.abstractDivMod("uf_rem", "mod", a.term, b.term); ok {
+			return tv{term: r, typ: t}
 		}
 		return tv{term: fmt.Sprintf("(- %s (* %s %s))", a.term, b.term, truncDiv(a.term, b.term)), typ: t}
 	case token.AND:
